@@ -6,6 +6,7 @@ import numpy as np
 from .. import core, gen
 
 ID = 'C16'
+FOUNDATIONS = ['harness.foundation.cscalar']   # ties of the C++ helper functions the model rests on (generated from their text)
 _META = core.VERIF / 'harness' / 'props' / 'meta' / 'C16.json'
 LEVEL = json.loads(_META.read_text())['category'] if _META.exists() else 'other'
 RULE = ('corpus; unsigned images (uint8/16/32/64, 1-3 D, 1..4096 pixels) with 1..65536 grey levels: constant, two-level, '
